@@ -15,8 +15,13 @@ def exec_one(unit, prefix, expect=None):
 
 
 def run(ctx):
+    from vcheck.props.c02 import mutation_programs
     units = simcheck.standard_space(ctx.tier)
-    return simcheck.run_check(ctx, MOD, units, BOUNDS)
+    cap = 20_000 if ctx.tier == "quick" else 400_000
+    for p in mutation_programs():
+        units.append(({"program": p, "cfg": {"env_kinds": ["crash"]}}, {"crash": 1, "total": 1}, cap))
+    return simcheck.run_check(ctx, MOD, units, BOUNDS + "; 5 programs whose user code mutates a delivered list/dict in place "
+                              "before an equal value is delivered at a later position")
 
 
 def replay(rep):
